@@ -368,7 +368,7 @@ def _pvalue(v):
         return str(v)
     d = getattr(v, '_taskchain_instantiate_def', None)
     if d is not None:
-        return d
+        return A.mark_placeholders(d)
     if isinstance(v, list):
         return [_pvalue(x) for x in v]
     if isinstance(v, dict):
